@@ -2,7 +2,7 @@
 From Coq Require Import ZArith NArith List Bool Lia.
 From Coq Require Import ZifyBool ZifyN ZifyNat.
 From GCNP Require Import base.GoInt base.Bytes gen.Crc_gen model.Crc model.Segment spec.SpecSegment
-  proofs.Crc24Proofs proofs.Crc32Proofs proofs.SegmentProofs.
+  proofs.Crc24Proofs proofs.Crc24SpecProofs proofs.Crc32Proofs proofs.SegmentProofs.
 Import ListNotations.
 Ltac Zify.zify_post_hook ::= Z.div_mod_to_equations.
 Open Scope Z_scope.
@@ -83,31 +83,19 @@ Proof.
   change (2 ^ 17) with 131072. change (2 ^ 34) with 17179869184. destruct sc; cbn [b2n b2z]; lia.
 Qed.
 
-(* the CRC-24 field as the model computes it, seen as a function of the header bytes *)
-Definition model_crc24 (h : list Z) : Z := Z.of_N (checksum_koopman (Z.to_N (le_val h)) (length h)).
-
-Lemma model_crc24_of_le n v : (v < 2 ^ (8 * N.of_nat n))%N -> model_crc24 (le_bytes n (Z.of_N v)) = Z.of_N (checksum_koopman v n).
-Proof.
-  intro H. unfold model_crc24. rewrite le_bytes_length, le_val_le_bytes.
-  rewrite Z.mod_small, N2Z.id; [reflexivity|].
-  split; [lia|]. replace (256 ^ Z.of_nat n) with (Z.of_N (2 ^ (8 * N.of_nat n))); [lia|].
-  rewrite N2Z.inj_pow, N2Z.inj_mul, nat_N_Z. change (Z.of_N 2) with 2. change (Z.of_N 8) with 8.
-  rewrite Z.pow_mul_r by lia. reflexivity.
-Qed.
-
-Lemma written_header_is_spec hd n : (hd < 2 ^ (8 * N.of_nat n))%N ->
-  write_header hd n = le_bytes n (Z.of_N hd) ++ le_bytes 3 (model_crc24 (le_bytes n (Z.of_N hd))).
-Proof. intro H. unfold write_header. rewrite !put_le_le_bytes, model_crc24_of_le by exact H. reflexivity. Qed.
+(* the written header: little-endian word, then the textbook CRC-24 of those bytes, little-endian *)
+Lemma written_header_is_spec hd n :
+  write_header hd n = le_bytes n (Z.of_N hd) ++ le_bytes 3 (spec_crc24 (le_bytes n (Z.of_N hd))).
+Proof. unfold write_header. rewrite <- (put_le_le_bytes n hd), <- checksum_koopman_is_spec, !put_le_le_bytes. reflexivity. Qed.
 
 (* ---------------------------------------------------------------- the layout *)
 Theorem layout_none sc p : bytes_ok p -> Z.of_nat (length p) <= 131071 ->
-  encode_segment None sc p = Ok (spec_segment_with model_crc24 false sc (zlen p) 0 p).
+  encode_segment None sc p = Ok (spec_uncompressed_segment sc p).
 Proof.
   intros Hb Hl. unfold encode_segment, encode_segment_full. change MaxPayloadLength with 131071.
   replace (Z.of_nat (length p) >? 131071) with false by lia. rewrite wrap_i32_small by lia.
-  unfold spec_segment_with, zlen. f_equal.
+  unfold spec_uncompressed_segment, spec_segment, spec_segment_with, zlen. f_equal.
   rewrite written_header_is_spec.
-  2:{ rewrite header_data_uncompressed_arith by lia. change (2 ^ (8 * N.of_nat hlen_uncompressed))%N with 16777216%N. destruct sc; cbn [b2n]; lia. }
   rewrite header_word_uncompressed by lia. change hlen_uncompressed with 3%nat.
   unfold write_crc32. rewrite put_le_le_bytes, crc32_model_is_spec by exact Hb. rewrite <- app_assoc. reflexivity.
 Qed.
@@ -116,19 +104,17 @@ Theorem layout_comp k sc p cp : bytes_ok p -> Z.of_nat (length p) <= 131071 ->
   cmp k p = Ok cp -> bytes_ok cp -> Z.of_nat (length cp) < 2147483648 ->
   encode_segment (Some k) sc p =
   Ok (if Z.of_nat (length cp) <=? Z.of_nat (length p)
-      then spec_segment_with model_crc24 true sc (zlen p) (zlen cp) cp          (* section 2.2 *)
-      else spec_segment_with model_crc24 true sc 0 (zlen p) p).                 (* section 2.3.2, uncompressed-length field 0 *)
+      then spec_compressed_segment sc p cp        (* section 2.2 *)
+      else spec_fallback_segment sc p).           (* section 2.3.2, uncompressed-length field 0 *)
 Proof.
   intros Hb Hl Hc Hcb Hcl. unfold encode_segment, encode_segment_full. change MaxPayloadLength with 131071.
   replace (Z.of_nat (length p) >? 131071) with false by lia. rewrite Hc, !wrap_i32_small by lia.
-  unfold spec_segment_with, zlen.
+  unfold spec_compressed_segment, spec_fallback_segment, spec_segment, spec_segment_with, zlen.
   destruct (Z.leb_spec (Z.of_nat (length cp)) (Z.of_nat (length p))) as [Hle|Hgt]; f_equal.
   - rewrite written_header_is_spec.
-    2:{ rewrite header_data_compressed_arith by lia. change (2 ^ (8 * N.of_nat hlen_compressed))%N with 1099511627776%N. destruct sc; cbn [b2n]; lia. }
     rewrite header_word_compressed by lia. change hlen_compressed with 5%nat.
     unfold write_crc32. rewrite put_le_le_bytes, crc32_model_is_spec by exact Hcb. rewrite <- app_assoc. reflexivity.
   - rewrite written_header_is_spec.
-    2:{ rewrite header_data_compressed_arith by lia. change (2 ^ (8 * N.of_nat hlen_compressed))%N with 1099511627776%N. destruct sc; cbn [b2n]; lia. }
     rewrite header_word_compressed by lia. change hlen_compressed with 5%nat.
     unfold write_crc32. rewrite put_le_le_bytes, crc32_model_is_spec by exact Hb. rewrite <- app_assoc. reflexivity.
 Qed.
